@@ -20,6 +20,12 @@ CLAIMED = {
         "note": "Bound 4*(H*T+10)*eps*sum|terms|; non-finite inputs are skipped (counted); the direct pl() group is plain value generation and is labelled so in the evidence.",
         "technique": TECH + "exact-rational ledger reference model stepped through simulated time, market-data faults",
     },
+    "C12": {
+        "text": "Payoffs are monitored inside seeded histories on a family of up to 10 derivatives sharing one underlier and one strike: after re-simulation (F10), casts, clause registration by another actor and market-data faults (F9) that pin the terminal / running extreme / start price exactly on the strike, incl. T=1 and T=2 grids. Oracles: per-path contract evaluated in exact rational arithmetic (mpmath for the variance swap; exact-rational start index for the forward start), fold of the registered clauses in registration order over payoff_fn() (bitwise), relations between the family members (lookback >= European >= 0, American >= European binary, call - put = S_T - K), one entry per path.",
+        "design_ref": "DESIGN.md 6/C12",
+        "note": "Tolerance 4*eps*(|S|+|K|); comparisons within 2 ulp of a strike not representable in the dtype are skipped (counted); functional:* operations on tapes are plain value generation and labelled so.",
+        "technique": TECH + "per-path exact contract reference on the live object graph, pin-on-strike data faults, clause-order model",
+    },
     "C13": {
         "text": "After every derivative.simulate in seeded histories where two derivatives of different maturities (and a two-underlier user derivative) share and re-simulate one underlier: the number of time points of every buffer equals the exact-rational grid model (ceil(M/dt)+1, k+1 when M/dt is within 1e-9 of an integer k - maturities built as k*dt, k/denominator, repeated sums, (k+frac)*dt over 12 step sizes and all 8 primaries); time to maturity for every step, negative indices and None equals (T-1-i)*dt within 16 ulp, is strictly decreasing and exactly 0 at the end; payoff, features and hedge use the same grid.",
         "design_ref": "DESIGN.md 6/C13",
